@@ -135,7 +135,10 @@ class VersionRange(VersionRangeConstraint):
             # Although `>=1.2.3+local` does not allow the exact version `1.2.3`, both of
             # those versions do allow `1.2.3+local`.
             return (
-                self.min is not None and self.min.is_local() and other.allows(self.min)
+                self.min is not None
+                and self.min.is_local()
+                and not other.is_local()
+                and other.allows(self.min)
             )
 
         if isinstance(other, VersionUnion):
@@ -161,7 +164,12 @@ class VersionRange(VersionRangeConstraint):
                 return other
 
             # `>=1.2.3+local` intersects `1.2.3` to return `>=1.2.3+local,<1.2.4`.
-            if self.min is not None and self.min.is_local() and other.allows(self.min):
+            if (
+                self.min is not None
+                and self.min.is_local()
+                and not other.is_local()
+                and other.allows(self.min)
+            ):
                 upper = other.stable.next_patch()
                 return VersionRange(
                     min=self.min,
